@@ -160,7 +160,8 @@ def check_file(texts):
             issues.append(("file:missing-class", f"no class for cstruct object c{i}"))
             continue
         node = names.get(f"c{i}")
-        if node is None or not (isinstance(node.value, ast.Name) and node.value.id == cname):
+        names_cls = node is not None and any(isinstance(x, ast.Name) and x.id == cname for x in (node.value, node.annotation))
+        if not names_cls:  # either "c0: TypeAlias = _c0" or "c0: _c0"
             issues.append(("file:missing-object-name", f"module attribute c{i} is not declared as {cname}"))
         cs = cstruct()
         cs.load(t)
